@@ -410,6 +410,63 @@ pub fn relabel_sub() -> Sub {
     .witness(&["same-header-opens"])
 }
 
+/// password wraps with degenerate cost parameters (0 iterations / 0 passes): a backend may refuse them, but if it
+/// produces a blob, that blob is bound to its password like any other
+fn degenerate_cost<V: Full>(prop: &mut Property) {
+    let name = V::NAME;
+    prop.subs.push(
+        Sub::new(format!("{name}/pw-degenerate-cost"), 4, "{local, secret} x {0 iterations (k1/k3) or 0 passes (k2/k4); 1 iteration / pass with the smallest memory}: if the library wraps with these parameters, the blob opens with its password and with none of 12 other passwords", move |idx, describe| {
+            let secret = idx % 2 == 1;
+            let zero = idx / 2 == 0;
+            let mut o = Outcome::new();
+            let pbytes: Vec<u8> = match V::VER {
+                1 | 3 => (if zero { 0u32 } else { 1 }).to_be_bytes().to_vec(),
+                _ => [&8192u64.to_be_bytes()[..], &(if zero { 0u32 } else { 1 }).to_be_bytes()[..], &1u32.to_be_bytes()[..]].concat(),
+            };
+            if describe {
+                o.sample = Some(json!({"backend": name, "secret_key": secret, "parameters": hexs(&pbytes)}));
+            }
+            let ks = keys::keyset::<V>(false, 0);
+            let key = if secret { ks.secrets[0].bytes.clone() } else { ks.locals[2].bytes.clone() };
+            let pw = b"correct horse".to_vec();
+            let params = crate::backends::params_from_bytes::<V>(&pbytes);
+            let wrapped = subject(|| if secret { pk::pw_wrap::<V, Secret>(&key, &pw, Some(&params)) } else { pk::pw_wrap::<V, Local>(&key, &pw, Some(&params)) });
+            let blob = match wrapped {
+                Ok(Ok(s)) => s,
+                Ok(Err(_)) => {
+                    o.class("refused-by-the-backend");
+                    return o;
+                }
+                Err(p) => {
+                    o.violate(format!("{name}/pw-degenerate-cost/panic"), p, json!({"parameters": hexs(&pbytes)}));
+                    return o;
+                }
+            };
+            let kind = if secret { Kind::PwSecret } else { Kind::PwLocal };
+            o.evals = 0;
+            let mut alts: Vec<Vec<u8>> = vec![vec![], b"correct hors".to_vec(), b"correct horsf".to_vec(), b"Correct horse".to_vec(), b"wrong".to_vec(), vec![0; 13], vec![0xff; 13]];
+            for bit in [0usize, 7, 50, 100, 103] {
+                alts.push(flip(&pw, bit));
+            }
+            o.evals += 1;
+            match open::<V>(kind, &blob, &pw) {
+                Ok(Ok(k)) if k == key => o.class("opens-with-its-password"),
+                other => o.violate(format!("{name}/pw-degenerate-cost/own"), format!("blob made with parameters {} does not open with its own password: {:?}", hexs(&pbytes), other.map(|r| r.map(|k| k.len()))), json!({"blob": blob})),
+            }
+            for a in alts {
+                o.evals += 1;
+                match open::<V>(kind, &blob, &a) {
+                    Ok(Err(_)) => o.class("other-password-rejected"),
+                    Ok(Ok(_)) => o.violate(format!("{name}/pw-degenerate-cost/other-password"), format!("blob made with parameters {} opens with another password ({})", hexs(&pbytes), hexs(&a)), json!({"blob": blob})),
+                    Err(p) => o.violate(format!("{name}/pw-degenerate-cost/panic"), p, json!({"blob": blob})),
+                }
+            }
+            o.nontrivial = o.evals;
+            o
+        }),
+    );
+}
+
 pub fn build(ctx: &Ctx) -> Property {
     let mut p = Property::new("C06", "fault_enumeration");
     add::<backends::V1>(&mut p, ctx);
@@ -419,6 +476,12 @@ pub fn build(ctx: &Ctx) -> Property {
     add::<backends::V4>(&mut p, ctx);
     add::<backends::V4S>(&mut p, ctx);
     p.subs.push(relabel_sub());
+    degenerate_cost::<backends::V1>(&mut p);
+    degenerate_cost::<backends::V2>(&mut p);
+    degenerate_cost::<backends::V3>(&mut p);
+    degenerate_cost::<backends::V3L>(&mut p);
+    degenerate_cost::<backends::V4>(&mut p);
+    degenerate_cost::<backends::V4S>(&mut p);
     p.assume("PBKW parameter corruptions that leave the property's cost budget (> 64 MiB, > 3 passes, > 10000 iterations) are resource exhaustion, classified before execution and skipped (counted in skipped_over_budget)");
     p
 }
